@@ -275,6 +275,22 @@ def run_case(case):
             labels.append("alt-used")
         all_clear = True
         prev = s1
+        if case.get("touch") and not case["filed"] and filer.path and _inside_box(filer.path):
+            # the harness plays the subclass that owns the resource at .path: a file at an extensioned path
+            # (uxd socket, single-file database) or a file inside a directory path (database directory)
+            try:
+                if case["ext"]:
+                    if not os.path.lexists(filer.path):
+                        with open(filer.path, "w") as f:
+                            f.write("resource")
+                        labels.append("touched-file")
+                elif os.path.isdir(filer.path):
+                    with open(os.path.join(filer.path, "data.mdb"), "w") as f:
+                        f.write("resource")
+                    labels.append("touched-dir")
+            except OSError:
+                pass
+            prev = snapshot()
         for ro in case.get("reopens", []):
             try:
                 filer.reopen(clear=ro["clear"], reuse=ro["reuse"], clean=ro["clean"])
@@ -324,7 +340,7 @@ def run_case(case):
                 case["clear"], path_rel, bad[:6]))
         if not case["clear"] and (deleted or modified):
             r.fail("C29/close-without-clear-removed", "deleted=%r modified=%r" % (deleted[:5], modified[:5]))
-        if case["clear"] and existed and os.path.lexists(filer.path):
+        if case["clear"] and existed and path_rel not in s0 and os.path.lexists(filer.path):
             r.fail("C29/clear-left-path", "path %r still exists after close(clear=True)" % path_rel)
         if temp and case["clear"] and all_clear:
             left = [p for p in sorted(own_temp) if p in s2]
@@ -347,9 +363,9 @@ NAMES = ["main", "a/b", "a.b", ".hidden", "./x", "x/../y", "../x", "../../x", ".
 BASES = ["", "b", "..", "b/c", "../..", "./", "b.d", "../b", "b/.."]
 
 
-def _mk(t, c, f, x, ru, cl, name, base, pre="none", reopens=(), blockhead=False, fext=None):
+def _mk(t, c, f, x, ru, cl, name, base, pre="none", reopens=(), blockhead=False, fext=None, touch=False):
     return {"temp": t, "clean": c, "filed": f, "ext": x, "reuse": ru, "clear": cl, "name": name, "base": base,
-            "pre": pre, "reopens": list(reopens), "blockhead": blockhead, "fext": fext}
+            "pre": pre, "reopens": list(reopens), "blockhead": blockhead, "fext": fext, "touch": touch}
 
 
 def enumerate_cases(tier, shard, nshards):
@@ -368,7 +384,7 @@ def enumerate_cases(tier, shard, nshards):
                                     for bs in bases:
                                         i += 1
                                         if i % nshards == shard:
-                                            yield _mk(t, c, f, x, ru, cl, nm, bs)
+                                            yield _mk(t, c, f, x, ru, cl, nm, bs, touch=(i % 2 == 0))
     return [("flag-matrix x names x bases", gen(), True)]
 
 
@@ -380,7 +396,7 @@ def _strategy():
     return st.builds(_mk, st.booleans(), st.booleans(), st.booleans(), st.booleans(), st.booleans(), st.booleans(),
                      rel, base, st.sampled_from(["none", "none", "file", "dir", "dirfull"]),
                      st.lists(ro, max_size=2), st.sampled_from([False, False, False, True]),
-                     st.sampled_from([None, None, "txt", "d.e"]))
+                     st.sampled_from([None, None, "txt", "d.e"]), st.booleans())
 
 
 def searches(tier):
